@@ -94,22 +94,16 @@ Proof. exact waiter_progress. Qed.
 Print Assumptions done_waiter_can_wake.
 
 (* ================================================================== (c) walk context - PARTIAL *)
-(* on the access table regenerated from filesystem.go on this run: the status ticker goroutine reads
-   inodesVisited / extractCalls / currentPath which handleFile / runExtractor write, with no common lock and
-   no ordering edge; every other field is free of such pairs *)
-Theorem walk_status_ticker_race_refuted :
-  race_free walk_accesses walk_calls "RunFS" = false /\
-  racy_fields walk_fields walk_accesses walk_calls "RunFS" = ["inodesVisited"; "extractCalls"; "currentPath"]%string /\
-  racy_ticker_fns walk_accesses walk_calls "RunFS" = ["printStatus"]%string /\
-  racy_main_fns walk_accesses walk_calls "RunFS" = ["handleFile"; "runExtractor"]%string.
-Proof. exact walk_status_ticker_race_refuted_lemma. Qed.
-Print Assumptions walk_status_ticker_race_refuted.
-
-Theorem walk_other_fields_race_free :
-  forall f, In f walk_fields -> f <> "inodesVisited"%string -> f <> "extractCalls"%string -> f <> "currentPath"%string ->
-    existsb (fun p => String.eqb f (a_field (ev_acc (fst p)))) (races walk_accesses walk_calls "RunFS") = false.
-Proof. exact walk_other_fields_race_free_lemma. Qed.
-Print Assumptions walk_other_fields_race_free.
+(* on the access table regenerated from filesystem.go on this run: every conflicting pair of accesses to the
+   walk context by the walking goroutine and the status ticker goroutine of RunFS is ordered by the `go`
+   statement or made under a common mutex (after /repo's "fix: filesystem: guard the walk counters read by the
+   status-printing goroutine with a mutex"; before it this statement was refuted on inodesVisited /
+   extractCalls / currentPath) *)
+Theorem walk_context_race_free :
+  race_free walk_accesses walk_calls "RunFS" = true /\
+  racy_fields walk_fields walk_accesses walk_calls "RunFS" = [].
+Proof. exact walk_context_race_free_lemma. Qed.
+Print Assumptions walk_context_race_free.
 
 (* ================================================================== non-vacuity *)
 (* a strategy with a spawned attempt: two delivery orders, same result; hypotheses hold on its outputs *)
@@ -141,7 +135,16 @@ Example cache_reachable_example :
   exists s, reachable s /\ threads s 0 = TRun 0%N 0 0 /\ threads s 1 = TWait 0%N 3 0.
 Proof. exact cache_reachable_example_lemma. Qed.
 
-(* race_free is not constantly false: with the proposed mutex around the status fields it holds *)
-Example race_free_with_status_lock :
-  race_free (map with_status_lock walk_accesses) walk_calls "RunFS" = true.
-Proof. exact race_free_with_status_lock_lemma. Qed.
+(* the theorem is about a non-empty set of conflicting pairs, all of them under a common lock *)
+Example walk_conflicts_exist_and_are_locked :
+  conflicting_pairs <> [] /\ forallb (fun p => share_lock (fst p) (snd p)) conflicting_pairs = true.
+Proof. exact walk_conflicts_exist_and_are_locked_lemma. Qed.
+
+(* race_free is not constantly true: without the mutex the table races on exactly the three status fields *)
+Example race_returns_without_status_lock :
+  race_free (map without_locks walk_accesses) walk_calls "RunFS" = false /\
+  racy_fields walk_fields (map without_locks walk_accesses) walk_calls "RunFS" =
+    ["inodesVisited"; "extractCalls"; "currentPath"]%string /\
+  racy_ticker_fns (map without_locks walk_accesses) walk_calls "RunFS" = ["printStatus"]%string /\
+  racy_main_fns (map without_locks walk_accesses) walk_calls "RunFS" = ["handleFile"; "runExtractor"]%string.
+Proof. exact race_returns_without_status_lock_lemma. Qed.
